@@ -104,6 +104,18 @@ let () =
   in
   let hash_state (s : str) = Hashtbl.hash s in
   let last_state_line = ref "" in
+  let prev_view : line list ref = ref [] in
+  let case_geom = ref (0, 0, -1) in
+  let x09_input : n list option ref = ref None in
+  let x09_text : n list list ref = ref [] in
+  let x12_pending : int option ref = ref None in
+  let x12_states : (int * vt) list ref = ref [] in
+  let x11_pending : (int * vt option) option ref = ref None in
+  let x11_class : str ref = ref "" in
+  let x11_failed = ref false in
+  let ora prop what = Printf.printf "ORA prop=%s case=%d step=%d fn=rel what=%s\n" prop !case_id !step what in
+  let kf prop id = Printf.printf "KF prop=%s id=%s case=%d step=%d\n" prop id !case_id !step in
+  let strs_of_toks t = let k = int t in list_of k (fun () -> n_list_of_toks t) in
   (try
      while true do
        let l = input_line ic in
@@ -112,6 +124,8 @@ let () =
        | "CASE" ->
            let t = toks_of_line l in
            case_id := int t;
+           (let c = int t in let r = int t in let l = int t in case_geom := (c, r, l));
+           x09_input := None; x12_pending := None; x12_states := []; x11_pending := None; x11_class := ""; x11_failed := false;
            if !case_id mod 97 = 0 then Printf.printf "SAMPLE %s\n" l;
            if Sys.getenv_opt "DRIVER_DEBUG" <> None then (prerr_endline ("case " ^ string_of_int !case_id); flush stderr);
            step := 0;
@@ -140,6 +154,82 @@ let () =
            let m = int t in
            let dr = list_of m (fun () -> line t) in
            pending_out := Some (ls, dr)
+       | "S" when !x12_pending <> None ->
+           let v = vt_of_line l in
+           (match !x12_pending with Some k -> x12_states := (k, v) :: !x12_states | None -> ());
+           x12_pending := None;
+           if List.length !x12_states = 3 then begin
+             let a = List.assoc 0 !x12_states and b = List.assoc 1 !x12_states and c = List.assoc 2 !x12_states in
+             obump "C12.chunks"; obump "C12.perchar"; incr steps;
+             if not (holds_C12 a b) then ora "C12" "feed_str_chunking";
+             if a.vterm.sb_limit = None && not (holds_C12_lines a b) then ora "C12" "feed_str_chunking_lines";
+             if not (holds_C12 a c) then begin
+               if known_C12 c && holds_C12 { a with vterm = { a.vterm with sb_limit = Some N0 } } { c with vterm = { c.vterm with sb_limit = Some N0 } }
+               then kf "C12" "KF-C12-1" else ora "C12" "per_char_feed"
+             end
+             else if not (holds_C12_lines a c) then begin
+               if a.vterm.sb_limit = None then (if known_C12 c then kf "C12" "KF-C12-1" else ora "C12" "per_char_feed_lines")
+             end;
+             if a.vterm <> (vt_new a.vterm.cols a.vterm.rows a.vterm.sb_limit).vterm then incr nontrivial
+           end
+       | "S" when !x11_pending <> None -> (
+           let v = vt_of_line l in
+           match !x11_pending with
+           | Some (k, None) -> x11_pending := Some (k, Some v)
+           | Some (k, Some orig) ->
+               x11_pending := None;
+               incr steps;
+               obump "C11.restore";
+               if k = 0 then begin
+                 x11_class :=
+                   (if kf1_C11 orig.vterm then "KF-C11-1" else if kf2_C11 orig.vterm then "KF-C11-2"
+                    else if kf3_C11 orig.vterm then "KF-C11-3" else "");
+                 if orig.vterm <> (vt_new orig.vterm.cols orig.vterm.rows orig.vterm.sb_limit).vterm then incr nontrivial;
+                 (* the model's dump must be the implementation's dump: checked in trace mode (QD) *)
+               end;
+               if not (holds_C11 orig v) && not !x11_failed then begin
+                 x11_failed := true;
+                 if !x11_class <> "" then kf "C11" !x11_class
+                 else ora "C11" (Printf.sprintf "restored_state_differs_at_%d" k)
+               end
+           | None -> ())
+       | "X12" -> let t = toks_of_line l in x12_pending := Some (int t)
+       | "X11" -> let t = toks_of_line l in x11_pending := Some (int t, None)
+       | "X11P" ->
+           let t = toks_of_line l in
+           obump "C11.public";
+           if int t = 0 && not !x11_failed then begin
+             x11_failed := true;
+             if !x11_class <> "" then kf "C11" !x11_class else ora "C11" "public_observables_differ"
+           end;
+           x11_failed := false; x11_class := ""
+       | "X09" -> let t = toks_of_line l in x09_input := Some (n_list_of_toks t)
+       | "QT" when !x09_input <> None -> let t = toks_of_line l in x09_text := strs_of_toks t
+       | "QU" -> (
+           match !x09_input with
+           | Some inp ->
+               let t = toks_of_line l in
+               let unw = strs_of_toks t in
+               incr steps; obump "C09.text";
+               if inp <> [] then incr nontrivial;
+               if not (holds_C09 inp !x09_text unw) then ora "C09" "text_differs_from_input";
+               (* correspondence of feed_str + text() from a fresh terminal *)
+               let c, r, _ = !case_geom in
+               (match feed_str (vt_new (nat_of_int c) (nat_of_int r) None) inp with
+                | Model.Ok (m, _) -> if vt_text m <> !x09_text then emit_div "Q" "text" [ "text" ]
+                | Panic _ -> emit_div "Q" "text" [ "panic.model" ])
+           | None -> ())
+       | "X14" ->
+           let t = toks_of_line l in
+           let _lim = int t in
+           let n = int t in let dr = list_of n (fun () -> line t) in
+           let m = int t in let ll = list_of m (fun () -> line t) in
+           let u = int t in let lu = list_of u (fun () -> line t) in
+           let coll = int t in
+           incr steps; obump "C14.stream"; obump "C14.collector";
+           if n > 0 then incr nontrivial;
+           if not (holds_C14 dr ll lu) then ora "C14" "drained_plus_lines_differs_from_unlimited";
+           if coll = 0 then ora "C14" "text_collector_differs"
        | "S" | "PANIC" -> (
            let post = if tag = "S" then Some (vt_of_line l) else None in
            (match (!pre, !pending_op) with
@@ -147,6 +237,7 @@ let () =
                (* initial state of a case: compare with the model's constructor *)
                match post with
                | Some p ->
+                   prev_view := tview p.vterm;
                    let m = vt_new p.vterm.cols p.vterm.rows p.vterm.sb_limit in
                    let d = diff_vt m p in
                    if d <> [] then emit_div "NEW" "new" d;
@@ -174,6 +265,11 @@ let () =
                      incr nontrivial
                    end;
                    (* oracles on the implementation triple *)
+                   (match f with
+                   | Some _ when Model.claims_inert v cs ->
+                       if Model.known_C20 cs then Printf.printf "KF prop=C20 id=KF-C20-1 case=%d step=%d\n" !case_id !step
+                       else Printf.printf "ORA prop=C20 case=%d step=%d fn=%s what=function_emitted_by_inert_sequence\n" !case_id !step kind
+                   | _ -> ());
                    (match f with
                    | Some f ->
                        List.iter
@@ -218,7 +314,8 @@ let () =
                    List.iter
                      (fun (prop, what) ->
                        Printf.printf "ORA prop=%s case=%d step=%d fn=%s what=%s\n" prop !case_id !step opn what)
-                     (Oracles_glue.call_oracles obump v mop p ls dr)
+                     (Oracles_glue.call_oracles obump v mop p ls dr !prev_view);
+                   prev_view := tview p.vterm
                | Panic s, Some _ -> emit_div opn opn [ "panic.model." ^ string_of_int (int_of_nat s) ]
                | Model.Ok _, None -> emit_div opn opn [ "panic.impl" ]
                | Panic _, None -> bump "panic.both")
